@@ -706,6 +706,11 @@ impl<'a> Gen<'a> {
     /// types and enums that differ only in case (`Node3` / `NODE4`).
     fn item_name(&self, kind: char, idx: usize) -> String {
         match self.names {
+            // Keywords as names, written raw (the first few items; then plain names again).
+            4 if idx < 8 => format!(
+                "r#{}",
+                ["type", "match", "box", "loop", "struct", "fn", "move", "ref"][idx]
+            ),
             1 => format!("Foo{}", "X".repeat(idx)),
             2 => match kind {
                 'T' => format!("Node{idx}"),
@@ -1345,7 +1350,7 @@ pub fn gen_valid(rng: &mut Rng, cfg: &GenCfg, ptr: usize) -> Project {
         addr_counter: 0x1000,
         names: 0,
     };
-    g.names = *g.rng.pick(&[0usize, 0, 0, 1, 2, 3]);
+    g.names = *g.rng.pick(&[0usize, 0, 0, 1, 2, 3, 4]);
     let nitems = g.cfg.max_items;
     for idx in 0..nitems {
         let m = g.rng.below(nmod);
